@@ -145,6 +145,18 @@ pub fn line_take(path: &str) -> Vec<u8> {
 }
 
 /// discard everything the peer has written that the port has not read yet (line goes quiet)
+/// fault: the far end accepts at most `n` unread bytes from the port (flow control, a stalled adapter)
+pub fn set_capacity(path: &str, n: usize) {
+    let wk = with(|w| {
+        let l = line(w, path);
+        l.from_port.capacity = n;
+        l.from_port.wr_waker.take()
+    });
+    if let Some(wk) = wk {
+        wk.wake();
+    }
+}
+
 pub fn line_clear(path: &str) {
     with(|w| {
         let l = line(w, path);
@@ -285,12 +297,22 @@ impl PortHandle {
         res
     }
 
-    pub fn poll_write(&mut self, _cx: &mut Context<'_>, data: &[u8]) -> Poll<io::Result<usize>> {
+    pub fn poll_write(&mut self, cx: &mut Context<'_>, data: &[u8]) -> Poll<io::Result<usize>> {
         let path = self.path.clone();
         with(|w| {
             let now = w.now;
             let short = w.cfg.short_writes && !w.canonical;
-            let mut n = data.len();
+            // flow control / a full driver buffer: only as much as the far end leaves room for
+            let space = {
+                let l = line(w, &path);
+                l.from_port.capacity.saturating_sub(l.from_port.buffered)
+            };
+            if space == 0 && !data.is_empty() {
+                line(w, &path).from_port.wr_waker = Some(cx.waker().clone());
+                *w.counters.entry("fault_write_stall").or_insert(0) += 1;
+                return Poll::Pending;
+            }
+            let mut n = data.len().min(space);
             if short && n > 1 {
                 match w.tape.weighted(&[4, 1, 2]) {
                     0 => {}
